@@ -176,7 +176,7 @@ func writeDesc(w io.Writer, desc string, indent int, withDesc bool) (err error) 
 	// forms so it has to be written as one.
 	desc = strings.ReplaceAll(desc, "\\", "\\\\")
 	if strings.ContainsAny(desc, "\n\"") {
-		desc = strings.ReplaceAll(desc, `"""`, `\"""`)
+		desc = escapeQuoteRuns(desc)
 		if _, err = w.Write([]byte(shift)); err == nil {
 			shift = "\n" + shift
 			if _, err = w.Write([]byte(`"""`)); err == nil {
@@ -200,6 +200,33 @@ func writeDesc(w io.Writer, desc string, indent int, withDesc bool) (err error) 
 		_, err = w.Write([]byte(shift))
 	}
 	return
+}
+
+// escapeQuoteRuns writes every quote of a run of three or more quotes as an
+// escape so that the run does not end a block string, whatever its length.
+func escapeQuoteRuns(s string) string {
+	if !strings.Contains(s, `"""`) {
+		return s
+	}
+	var b strings.Builder
+	for i := 0; i < len(s); {
+		j := i
+		for j < len(s) && s[j] == '"' {
+			j++
+		}
+		switch {
+		case j == i:
+			b.WriteByte(s[i])
+			i++
+		case 3 <= j-i:
+			b.WriteString(strings.Repeat(`\"`, j-i))
+			i = j
+		default:
+			b.WriteString(s[i:j])
+			i = j
+		}
+	}
+	return b.String()
 }
 
 // Ideally a default value should be specified but since the only current use
